@@ -138,7 +138,7 @@ def build_index(path):
             n = len(line)
             if line.startswith(b'{"fn"'):
                 r = json.loads(line)
-                idx["fns"][r["fn"]] = [off, n, r["gen"], r["kind"], r.get("root"), r.get("trait_item"), r["file"], r["line"]]
+                idx["fns"][r["fn"]] = [off, n, r["gen"], r["kind"], r.get("root"), r.get("trait_item"), r["file"], r["line"], r.get("fnmac")]
             else:
                 r = json.loads(line)
                 if "adt" in r:
@@ -176,7 +176,7 @@ class LazyFns:
     def add_unit(self, path, idx, is_bin):
         for n, e in idx["fns"].items():
             name = ("bin:" + n) if is_bin else n
-            self.index[name] = (path, e[0], e[1], e[2], e[3], e[4], e[5], e[6], e[7], is_bin)
+            self.index[name] = (path, e[0], e[1], e[2], e[3], e[4], e[5], e[6], e[7], is_bin, e[8] if len(e) > 8 else None)
 
     def _load(self, name):
         e = self.index[name]
@@ -220,6 +220,9 @@ class LazyFns:
     def values(self):
         for n in list(self.index):
             yield self[n]
+
+    def fnmac(self, name):
+        return self.index[name][10]
 
     def meta(self, name):
         """(gen, kind, root, trait_item, file, line) without parsing the body."""
